@@ -6,12 +6,14 @@ import GV.Lemmas.C10
 import GV.Lemmas.C11
 import GV.Lemmas.C12
 import GV.Lemmas.C13
+import GV.Lemmas.C14
 import GV.Lemmas.C15
 import GV.Props.C09
 import GV.Props.C10
 import GV.Props.C11
 import GV.Props.C12
 import GV.Props.C13
+import GV.Props.C14
 import GV.Props.C15
 /- helper lemmas for GV/Props/C09b.lean -/
 namespace GV
@@ -311,6 +313,18 @@ theorem cell0_str (E : Ext) (typ md : Nat) (b : Bytes) (u : Bool) (rest : Bytes)
   · exact key _ (Props.C13.C13_char E maxLen hm b hb u rest) (by omega)
   · exact key _ (Props.C13.C13_blob E typ md ht ⟨h1, h4⟩ b hb u rest) (by omega)
 
+/-- JSON columns: the length-prefixed binary document decodes to the document's text; the document holds no DOUBLE,
+    so the text is the same for every float formatter (`C14.render_noDbl`) -/
+theorem cell0_raw (E : Ext) (typ md : Nat) (b t : Bytes) (u : Bool) (rest : Bytes) (h : W.CellOK typ md u (.raw b t)) :
+    cellLength (W.cell typ md (.raw b t) ++ rest) 0 typ md = .ok (W.cell typ md (.raw b t)).length ∧
+    cellBytes E (W.cell typ md (.raw b t) ++ rest) 0 typ md u
+      = .ok (txt E md (.raw b t), (W.cell typ md (.raw b t)).length) := by
+  obtain ⟨rfl, h1, h4, d, hwf, hnd, hlen, rfl, rfl⟩ := h
+  have hdoc := Props.C14.C14_doc E d hwf
+  rw [C14.render_noDbl E.fmtFloat64E (fun _ => []) true d hnd] at hdoc
+  have := C14.cell_json_at E [] (W.jsonb d) rest _ md u h1 h4 hlen hdoc
+  simpa [W.cell, txt, W.text] using this
+
 theorem cell0 (E : Ext) (typ md : Nat) (u : Bool) (v : W.CellVal) (h : W.CellOK typ md u v) (rest : Bytes) :
     cellLength (W.cell typ md v ++ rest) 0 typ md = .ok (W.cell typ md v).length ∧
     cellBytes E (W.cell typ md v ++ rest) 0 typ md u = .ok (txt E md v, (W.cell typ md v).length) := by
@@ -332,7 +346,7 @@ theorem cell0 (E : Ext) (typ md : Nat) (u : Bool) (v : W.CellVal) (h : W.CellOK 
   | datetime2 y mo d hh mi s frac => exact cell0_datetime2 E typ md y mo d hh mi s frac u rest h
   | timestamp2 sec frac => exact cell0_timestamp2 E typ md sec frac u rest h
   | str b => exact cell0_str E typ md b u rest h
-  | raw b => exact h.elim
+  | raw b t => exact cell0_raw E typ md b t u rest h
 
 /-- the uniform cell theorem at an arbitrary position -/
 theorem cell_exact (E : Ext) (typ md : Nat) (u : Bool) (v : W.CellVal) (h : W.CellOK typ md u v) (pre rest : Bytes) :
